@@ -68,19 +68,50 @@ def run(b):
     out["psi_scale"] = float(np.max(np.abs(psi2d)))
     # argument kinds: scalar, array, MultiLocationArray
     kinds = {}
-    m = MultiLocationArray(2, 2)
-    mz = MultiLocationArray(2, 2)
-    for loc, shp in (("centre", (2, 2)), ("xlow", (3, 2)), ("ylow", (2, 3)), ("corners", (3, 3))):
-        k = int(np.prod(shp))
-        setattr(m, loc, R[:k].reshape(shp))
-        setattr(mz, loc, Z[:k].reshape(shp))
+    LOCS = (("centre", (2, 2)), ("xlow", (3, 2)), ("ylow", (2, 3)), ("corners", (3, 3)))
+    SUBSETS = (("centre", "xlow", "ylow", "corners"), ("centre",), ("ylow",), ("xlow",), ("corners",), ("centre", "ylow"), ("centre", "xlow"), ("xlow", "ylow"),
+               ("centre", "xlow", "ylow"), ("ylow", "corners"))
     for n in ("psi", "Bp_R", "d2psidRdZ", "dBRdR", "dB2dZ", "dBdR"):
         f = getattr(eq, n)
         arr = np.asarray(f(R, Z), dtype=float)
         sc = np.array([float(f(float(a), float(c))) for a, c in zip(R[:4], Z[:4])])
-        res = f(m, mz)
-        ml = np.concatenate([np.asarray(getattr(res, loc)).ravel() for loc in ("centre",)])
-        kinds[n] = [float(np.max(np.abs(sc - arr[:4]))), float(np.max(np.abs(ml - arr[:4])))]
+        worst, worst_at = 0.0, None
+        # MultiLocationArray arguments with every location set, and with only some of them set (as the mesh code does for
+        # quantities that live at the centre and the y-faces only): every location that IS set must get the function's value
+        for sub in SUBSETS:
+            m = MultiLocationArray(2, 2)
+            mz = MultiLocationArray(2, 2)
+            for loc, shp in LOCS:
+                if loc in sub:
+                    k = int(np.prod(shp))
+                    setattr(m, loc, R[:k].reshape(shp).copy())
+                    setattr(mz, loc, Z[:k].reshape(shp).copy())
+            res = f(m, mz)
+            for loc, shp in LOCS:
+                if loc in sub:
+                    k = int(np.prod(shp))
+                    e = float(np.max(np.abs(np.asarray(getattr(res, loc), dtype=float).ravel() - arr[:k])))
+                    if not e <= worst:
+                        worst, worst_at = (e if e == e else float("inf")), [list(sub), loc]
+        kinds[n] = [float(np.max(np.abs(sc - arr[:4]))), worst, worst_at]
+    # fpol / fpolprime take psi
+    for n in ("fpol", "fpolprime"):
+        f = getattr(eq, n)
+        arr = np.asarray(f(ps), dtype=float) * np.ones_like(ps)
+        worst, worst_at = 0.0, None
+        for sub in SUBSETS:
+            m = MultiLocationArray(2, 2)
+            for loc, shp in LOCS:
+                if loc in sub:
+                    setattr(m, loc, ps[:int(np.prod(shp))].reshape(shp).copy())
+            res = f(m)
+            for loc, shp in LOCS:
+                if loc in sub:
+                    k = int(np.prod(shp))
+                    e = float(np.max(np.abs(np.asarray(getattr(res, loc), dtype=float).ravel() * np.ones(k) - arr[:k])))
+                    if not e <= worst:
+                        worst, worst_at = (e if e == e else float("inf")), [list(sub), loc]
+        kinds[n] = [0.0, worst, worst_at]
     out["kinds"] = kinds
     if b["method"] == "dct":
         d = eq._dct
